@@ -210,4 +210,51 @@ example : (iterRun .plain none (fun _ => 4) toyNext
     [] false (some 6) { sel := [] }).1 = [.pkt (.frame [97]), .pkt (.frame [98]), .timeout] := by
   decide +kernel
 
+/-- **C11, the datagram client.**  `UDPNetworkClient.recv_packet(timeout=T)` / `send_packet(…, timeout=T)` whatever the
+    contention on the client's lock (free, busy for `d` ticks, or no lock = the bare datagram transport), for every
+    socket / selector script and retry interval: lock waiting + select waiting ≤ `T`, nothing is spent in an unbounded
+    wait, the elapsed time is exactly lock waiting + select waiting + over-sleep + processing, `T = 0` performs no
+    select() and no blocking lock acquisition, TimeoutError only once `T` has elapsed, and a call that could not get the
+    lock within the budget never touches the socket. -/
+theorem C11_udp_client_budget (ri : Tmo) (bufsize : Nat) (data : Bytes) (lk : Option LockEv) (tv : Nat)
+    (sock : List SockCall) (w : World) :
+    ((udpClientRecv ri bufsize lk (some tv) sock w).w.waited + (udpClientRecv ri bufsize lk (some tv) sock w).w.lockw
+        ≤ w.waited + w.lockw + tv ∧
+     (udpClientRecv ri bufsize lk (some tv) sock w).w.unbounded = w.unbounded ∧
+     (udpClientRecv ri bufsize lk (some tv) sock w).w.now + (w.waited + w.lockw + w.over + w.proc) =
+       w.now + ((udpClientRecv ri bufsize lk (some tv) sock w).w.waited + (udpClientRecv ri bufsize lk (some tv) sock w).w.lockw +
+                (udpClientRecv ri bufsize lk (some tv) sock w).w.over + (udpClientRecv ri bufsize lk (some tv) sock w).w.proc) ∧
+     (tv = 0 → (udpClientRecv ri bufsize lk (some tv) sock w).w.nsel = w.nsel ∧
+               (udpClientRecv ri bufsize lk (some tv) sock w).w.nlockw = w.nlockw) ∧
+     ((udpClientRecv ri bufsize lk (some tv) sock w).out = .timeout →
+       w.now + tv ≤ (udpClientRecv ri bufsize lk (some tv) sock w).w.now)) ∧
+    ((udpClientSend ri data lk (some tv) sock w).w.waited + (udpClientSend ri data lk (some tv) sock w).w.lockw
+        ≤ w.waited + w.lockw + tv ∧
+     (udpClientSend ri data lk (some tv) sock w).w.unbounded = w.unbounded ∧
+     (tv = 0 → (udpClientSend ri data lk (some tv) sock w).w.nsel = w.nsel ∧
+               (udpClientSend ri data lk (some tv) sock w).w.nlockw = w.nlockw) ∧
+     ((udpClientSend ri data lk (some tv) sock w).out = .timeout →
+       w.now + tv ≤ (udpClientSend ri data lk (some tv) sock w).w.now)) ∧
+    (∀ ev t w', lockWithTimeout ev t w = .timeout w' →
+      (udpClientRecv ri bufsize (some ev) t sock w).rest = sock ∧ (udpClientSend ri data (some ev) t sock w).rest = sock ∧
+      (udpClientRecv ri bufsize (some ev) t sock w).out = .timeout ∧ (udpClientSend ri data (some ev) t sock w).out = .timeout) := by
+  have h := udpClientRecv_fin ri bufsize lk tv sock w
+  have hs := udpClientSend_fin ri data lk tv sock w
+  refine ⟨⟨h.budget, h.unb, ?_, h.zero, fun ht => h.spent (by simp [ht, Outcome.isTimeout])⟩,
+          ⟨hs.budget, hs.unb, hs.zero, fun ht => hs.spent (by simp [ht, Outcome.isTimeout])⟩, ?_⟩
+  · have := h.acct; have := h.unb
+    simp only [World.acct] at *; omega
+  · intro ev t w' hl
+    obtain ⟨a, b, _, c, d, _⟩ := udpClient_lock_timeout_no_io ri bufsize data ev t sock w w' hl
+    exact ⟨b, d, a, c⟩
+
+/-- non-vacuity: the receive lock is released after 3 of the 5 ticks, the remaining 2 are exactly enough for the datagram
+    to arrive; with a lock held for 6 ticks the call times out after 5 without any socket call; with a zero budget and a busy
+    lock nothing is waited for at all -/
+example : (udpClientRecv none 64 (some (.busy 3)) (some 5) [⟨.eagain, 0⟩, ⟨.data [7], 0⟩] { sel := [.ready 2] }).out = .ok ∧
+    (udpClientRecv none 64 (some (.busy 3)) (some 5) [⟨.eagain, 0⟩, ⟨.data [7], 0⟩] { sel := [.ready 2] }).w.now = 5 ∧
+    (udpClientRecv none 64 (some (.busy 6)) (some 5) [⟨.data [7], 0⟩] { sel := [] }).out = .timeout ∧
+    (udpClientRecv none 64 (some (.busy 6)) (some 5) [⟨.data [7], 0⟩] { sel := [] }).rest = [⟨.data [7], 0⟩] ∧
+    (udpClientRecv none 64 (some (.busy 6)) (some 0) [⟨.data [7], 0⟩] { sel := [] }).w.now = 0 := by decide +kernel
+
 end EasyNet
